@@ -147,7 +147,15 @@ func (sc *serverConn) closeIdleConn() {
 	if sc.debug {
 		sc.logger.Printf("Connection is idle. Closing\n")
 	}
-	close(sc.closer)
+	// Told, not closed: the stream loop re-arms the idle timer on every
+	// request, and re-arming a timer that has fired runs this again. Closing
+	// the channel a second time would panic on the timer's goroutine, which
+	// nothing recovers, and take the process down. The channel holds one token
+	// and the stream loop takes it once.
+	select {
+	case sc.closer <- struct{}{}:
+	default:
+	}
 }
 
 func (sc *serverConn) Handshake() error {
